@@ -60,6 +60,12 @@ func genC10Giant(t *rapid.T) c10GiantCase {
 			}
 		}
 	}
+	if rapid.IntRange(0, 5).Draw(t, "border-beyond-2g") == 0 {
+		// borders the implementation's signed sector numbers cannot hold: acceptable only if the image ends before
+		// them (then they are as good as "the end"), otherwise the image has to be refused - never served undecrypted
+		st := rapid.SampledFrom([]int64{1 << 31, 1<<31 + 16, 0xFFFFFFF0}).Draw(t, "far-start")
+		pts[len(pts)-2], pts[len(pts)-1] = st, st+1
+	}
 	for i := 0; i < n; i++ {
 		c.Regions = append(c.Regions, refcrypt.Region{Start: uint32(pts[2*i]), End: uint32(pts[2*i+1])})
 	}
@@ -97,6 +103,12 @@ func runC10Giant(c c10GiantCase, st *hx.Stats) error {
 	defer f.Close()
 	e, err := pfs.NewEncryptedISO(f, []byte(c.Key), c.Clear)
 	if err != nil {
+		last := c.Regions[len(c.Regions)-1]
+		if last.End > 1<<31-1 && c.Size > (1<<31-1)*2048 {
+			st.Label("image longer than 2^31 sectors with borders beyond: refused")
+			st.NT(fmt.Sprintf("refused|%d|%d", c.Size, last.Start))
+			return nil
+		}
 		return hx.Failf("accepts-valid-table", "valid region table %v of a %d-byte image rejected: %v", c.Regions, c.Size, err)
 	}
 	dec, err := refcrypt.NewDecryptor([]byte(c.Key))
